@@ -85,6 +85,12 @@ class ChargingBase(VehicleState):
         elif not base.membership.grant_access_to_membership(vehicle.membership):
             msg = f"vehicle doesn't have access to base; context: {context}"
             return SimulationStateError(msg), None
+        elif base.geoid != vehicle.geoid:
+            # a vehicle can only plug in at a base it is parked at
+            log.warning(
+                f"ChargingBase.enter(): vehicle {vehicle.id} not at same location as {base.id}"
+            )
+            return None, None
         else:
             # actually claim the parking stall
             updated_base = base.checkout_stall()
